@@ -1,8 +1,64 @@
-import WireP.Acyc.Total
+import WireV.Sets
+import WireP.Lemmas.AcyclicProofs
+/-! # C07 — dependency cycles are detected and analysis always terminates
+
+Property theorems only; helper lemmas live in `WireP/Lemmas/AcyclicProofs.lean` and `WireP/Acyc/*`.
+The model is `WireV.verifyAcyclic` (lean/WireV/Acyclic.lean), a transcription of the stack machine
+in `internal/wire/analyze.go:verifyAcyclic`, tied to the code by the unit-tier correspondence. -/
 namespace WireP.C07
-theorem spike_spec (g : WV.Graph) (univ roots : List WV.Ty)
-    (hc : WV.Closed g univ) (hr : ∀ r, r ∈ roots → r ∈ univ)
-    (hkeys : ∀ a, g.succ a ≠ [] → a ∈ roots) :
-    ∃ n vf ef, WV.iter g n ⟨[], roots.map (fun r => [r]), 0⟩ = some ⟨vf, [], ef⟩ ∧
-      (0 < ef ↔ WV.HasCycle g) := WV.verifyAcyclic_spec g univ roots hc hr hkeys
+open WireV
+
+/-- a non-empty path in the graph the detector walks -/
+inductive Path (succ : Ty → List Ty) : Ty → Ty → Prop
+  | single {a b : Ty} : b ∈ succ a → Path succ a b
+  | cons {a b c : Ty} : b ∈ succ a → Path succ b c → Path succ a c
+
+/-- the provider graph has a cycle -/
+def Cyclic (succ : Ty → List Ty) : Prop := ∃ a, Path succ a a
+
+/-- what a cycle diagnostic prints is a closed walk: first = last, consecutive elements are edges -/
+def IsCycleTrail (succ : Ty → List Ty) (tr : List Ty) : Prop :=
+  2 ≤ tr.length ∧ tr.head? = tr.getLast? ∧ List.IsChain (fun x y => y ∈ succ x) tr
+
+/-- **Termination, linear bound.**  For every provider map and every root list the detector
+    empties its stack within `acFuel pm roots = |roots| + Σ_keys outdeg` steps: the running time
+    does not depend on the number of paths (deep chains, wide diamonds). -/
+theorem va_terminates (pm : PMap) (roots : List Ty) : (verifyAcyclic pm roots).stk = [] :=
+  WireP.AcyclicProofs.va_terminates pm roots
+
+/-- **Soundness and completeness.**  If every key of the map is a root (Go: `providerMap.Keys()`),
+    the detector reports no error iff the provider graph is acyclic. -/
+theorem va_spec (pm : PMap) (roots : List Ty) (hroots : ∀ k, (look k pm).isSome → k ∈ roots) :
+    (verifyAcyclic pm roots).errs = [] ↔ ¬ Cyclic (succOf pm) :=
+  WireP.AcyclicProofs.va_spec pm roots hroots
+
+/-- **Every diagnostic is a real cycle.** -/
+theorem va_sound (pm : PMap) (roots : List Ty) :
+    ∀ tr ∈ (verifyAcyclic pm roots).errs, IsCycleTrail (succOf pm) tr :=
+  WireP.AcyclicProofs.va_sound pm roots
+
+/-- the acyclicity stage of `processNewSet` passes iff the provider graph is acyclic (given that
+    the type order handed to the model lists every key, which the harness guarantees) -/
+theorem checkAcyclic_spec (order : List Ty) (pm : PMap)
+    (horder : ∀ k, (look k pm).isSome → k ∈ order) :
+    checkAcyclic order pm = [] ↔ ¬ Cyclic (succOf pm) :=
+  WireP.AcyclicProofs.checkAcyclic_spec order pm horder
+
+/-- a set is accepted only if its provider graph is acyclic — whether or not any injector uses
+    the cyclic part — and every error of a rejected cyclic set is a cycle diagnostic -/
+theorem procSet_ok_acyclic (order : List Ty) (done : List (Nat × SetRes)) (d : SetDef) (pm : PMap) (sm : SMap)
+    (horder : ∀ k, (look k pm).isSome → k ∈ order)
+    (h : procSet order done d = .ok pm sm) : ¬ Cyclic (succOf pm) :=
+  WireP.AcyclicProofs.procSet_ok_acyclic order done d pm sm horder h
+
+-- non-vacuity: a two-node cycle through a provider and a field is reported, a diamond is not
+example : (verifyAcyclic [(0, ⟨0, .prov { id := 1, args := [1], outs := [0] }⟩),
+                          (1, ⟨1, .fld { id := 2, parent := 0, outs := [1] }⟩)] [0, 1]).errs = [[0, 1, 0]] := by
+  decide
+example : (verifyAcyclic [(0, ⟨0, .prov { id := 1, args := [1, 2], outs := [0] }⟩),
+                          (1, ⟨1, .prov { id := 2, args := [3], outs := [1] }⟩),
+                          (2, ⟨2, .prov { id := 3, args := [3], outs := [2] }⟩),
+                          (3, ⟨3, .val { id := 4, out := 3 }⟩)] [0, 1, 2, 3]).errs = [] := by
+  decide
+
 end WireP.C07
